@@ -542,6 +542,40 @@ func checkC05(c *Ctx) {
 	}
 
 	c05DropOnlyUnverified(c, "C05.12")
+	// C05.16 what a replica tells others about its state (the sync info in its timeout messages) carries both its highest
+	// QC and its highest TC: a replica that fell behind during a run of failed views catches up through the TC
+	if sif := p.Method("protocol", "ViewStates", "SyncInfo"); sif != nil {
+		fs := NewFlow(p, sif)
+		var missing []string
+		for _, part := range []struct{ setter, field string }{{"SetQC", "highQC"}, {"SetTC", "highTC"}} {
+			isSet := func(in ssa.Instruction) bool {
+				ci, ok := in.(ssa.CallInstruction)
+				if !ok {
+					return false
+				}
+				cal := ci.Common().StaticCallee()
+				if cal == nil || len(ci.Common().Args) < 2 {
+					return false
+				}
+				ak := fs.K.Key(ci.Common().Args[len(ci.Common().Args)-1])
+				return (cal.Name() == part.setter || strings.HasPrefix(cal.Name(), "NewSyncInfoWith")) && strings.HasSuffix(ak, "ViewStates."+part.field)
+			}
+			isWith := func(in ssa.Instruction) bool {
+				ci, ok := in.(ssa.CallInstruction)
+				if !ok || ci.Common().StaticCallee() == nil || !strings.HasPrefix(ci.Common().StaticCallee().Name(), "NewSyncInfoWith") || len(ci.Common().Args) != 1 {
+					return false
+				}
+				return strings.HasSuffix(fs.K.Key(ci.Common().Args[0]), "ViewStates."+part.field)
+			}
+			if w := cfgSearch(fs, nil, sif.Blocks[0], isReturn, func(in ssa.Instruction) bool { return isSet(in) || isWith(in) }, nil); w != nil {
+				missing = append(missing, part.field)
+			}
+		}
+		c.Check(len(missing) == 0, "C05.16", "ViewStates.SyncInfo: carries the highest QC and the highest TC", p.FuncPos(sif),
+			"every path sets both SetQC(highQC) and SetTC(highTC) on the sync info it returns", "the sync info can be returned without "+join(missing)+": timeout messages no longer spread that certificate")
+	} else {
+		c.Unresolved("C05.16", "ViewStates.SyncInfo", "anchor missing")
+	}
 	// C05.15 the evidence for the new view travels on: what advanceView hands to the next leader (NewView) or builds
 	// its own proposal from (CreateProposal) is derived from the verified sync info that caused the advance. The
 	// replica's stored sync info is not a substitute: nothing stores the timeout certificate there, so a leader that
